@@ -60,6 +60,13 @@ def run(idx: Index, rep: Report, tier: str) -> None:
     cfg = cfg_of(au)
     rep.note_function(au.qualname)
     mk = [n for n, c in cfg_nodes_with_call(cfg, "make_child") if isinstance(n.ast, ast.Assign)]
+    direct = [n for n, c in cfg_nodes_with_call(cfg, "make_child") if n.kind == "return"]
+    for n in direct:
+        # `return state.make_child(…)` (also `s = state.make_child(…); return s`, which the canonical tree inlines):
+        # nothing can have been checked on the successor
+        rep.bad("C01.1 T2 successor-checked-against-invariants", f"{au.short}: every path make_child -> return passes the invariants loop", au.loc(n.ast), construct=norm(n.ast)[:80], detail="the successor state is returned as soon as it is built: state invariants and bounded types are not checked on it", function=au.qualname)
+    if direct and not mk:
+        return
     if len(mk) != 1:
         raise AnalysisError("anchor vanished: `new_state = state.make_child(...)` in apply_unsafe")
     mk = mk[0]
